@@ -298,6 +298,14 @@ Theorem C12_drops_are_the_documented_leaks : table_drops conv_of frame_use_table
 Proof. exact drops_are_expected. Qed.
 Print Assumptions C12_drops_are_the_documented_leaks.
 
+(* A frame can also be reached through the heap: the statements that store a frame (or a struct
+   bearing one) into a field are exactly the reviewed ones, each of which is a place of the
+   interleaving model (fragment of a reader / of a writer) or a view that lives only while the
+   reader loop holds the frame. *)
+Theorem C12_frame_stores_are_the_reviewed_ones : frame_escapes = expected_escapes.
+Proof. exact escapes_are_expected. Qed.
+Print Assumptions C12_frame_stores_are_the_reviewed_ones.
+
 (* Tie to the interleaving model.  The hand-over statements of the source (chan send of a
    frame, FramePool.Release, go statement with a frame, fragment.done(), the onDone closure) are
    exactly the model's list, in source order; its Release statements are, function by function,
